@@ -79,9 +79,16 @@ def run(case, ctx):
             if case["bank"] == "lib" and not mlgen.bank_is_invariant(bank, D, grp):
                 return {"status": "skipped", "key": "premise-broken-see-C03", "nontrivial": False}
             layer = mlgen.perturb(mlgen.build_layer(cfg, bank, case["i"]), rng, 0.5)
+            # every third case: integer weights and integer lattice input (the multilinear part is then exact in float32,
+            # so a single wrong index shows as a wrong integer); biases stay random reals
+            lattice_mode = case["i"] % 3 == 2
+            if lattice_mode:
+                from .c11 import integerise
+
+                layer = integerise(layer, rng)
             nontrivial = False
             for attempt in range(3):
-                x = mlgen.random_multi(rng, mlgen.sig_of(cfg["in_sig"]), D, tuple(cfg["sp"]), tuple(cfg["torus"]))
+                x = mlgen.random_multi(rng, mlgen.sig_of(cfg["in_sig"]), D, tuple(cfg["sp"]), tuple(cfg["torus"]), kind="lattice" if lattice_mode else "normal")
                 y = layer(x)
                 evals += 1
                 Y = probes.blocks(y)
@@ -125,7 +132,7 @@ def run(case, ctx):
         viols.append(viol(f"layer-exception-{type(e).__name__}", f"{type(e).__name__}: {str(e)[:300]}; {key}; {traceback.format_exc()[-400:]}"))
         nontrivial = True
     return result(key, viols, nontrivial, evals=evals, noise=noise, obs={"paired_layer_executions": evals},
-                  hist={"D": D, "M": cfg["M"], "group": grp, "bank": case["bank"], "bias": str(cfg["bias"]), "pad_kind": cfg["pad_kind"] + ("+lhs" if cfg["lhs"] else ""), "torus_kind": cfg["torus_kind"], "square": len(set(cfg["sp"])) == 1},
+                  hist={"D": D, "M": cfg["M"], "group": grp, "bank": case["bank"], "operands": "integer-lattice" if case["i"] % 3 == 2 else "random-reals", "bias": str(cfg["bias"]), "pad_kind": cfg["pad_kind"] + ("+lhs" if cfg["lhs"] else ""), "torus_kind": cfg["torus_kind"], "square": len(set(cfg["sp"])) == 1},
                   sample={"cfg": key, "noise": noise})
 
 
